@@ -347,8 +347,10 @@ impl FmtX for fmt::Bytes {
         true
     }
     fn write_first<A: Atomicity>(t: &mut Tendril<Self, A>) -> bool {
-        if t.len32() > 0 {
-            t[0] = t[0].to_ascii_uppercase();
+        // (DerefMut also on an empty tendril)
+        let s: &mut [u8] = &mut t[..];
+        if let Some(b) = s.first_mut() {
+            *b = b.to_ascii_uppercase();
         }
         true
     }
@@ -680,8 +682,8 @@ impl FmtX for fmt::UTF8 {
         run_model(m, ch)
     }
     fn push_char<A: Atomicity>(t: &mut Tendril<Self, A>, c: char) -> Option<Result<(), ()>> {
-        t.push_char(c);
-        Some(Ok(()))
+        // the generic CharFormat path; the inherent push_char runs in the Extend<char> battery
+        Some(t.try_push_char(c))
     }
     fn m_push_char(m: &mut Vec<u8>, c: char) -> Result<(), ()> {
         let mut b = [0u8; 4];
@@ -849,11 +851,9 @@ impl FmtX for fmt::UTF8 {
         o
     }
     fn write_first<A: Atomicity>(t: &mut Tendril<Self, A>) -> bool {
-        if t.len32() > 0 {
-            let s: &mut str = &mut *t;
-            if s.is_char_boundary(1) {
-                s[..1].make_ascii_uppercase();
-            }
+        let s: &mut str = &mut *t;
+        if !s.is_empty() && s.is_char_boundary(1) {
+            s[..1].make_ascii_uppercase();
         }
         true
     }
@@ -971,7 +971,7 @@ impl FmtX for fmt::WTF8 {
 }
 
 const SUBS: &[(u32, u32)] = &[(0, 1), (1, 1), (0, 9), (1, 9), (2, 10), (8, 9), (1, 0), (3, 40)];
-const POPS: &[u32] = &[1, 2, 9, 40];
+const POPS: &[u32] = &[1, 2, 9, 40, 0];
 const CHARS: &[char] = &['b', '\u{e9}', '\u{1F600}'];
 
 #[derive(Clone, Copy, Debug, PartialEq, Eq)]
@@ -1378,7 +1378,7 @@ impl<F: FmtX, A: Atomicity> Pool<F, A> {
                 need!(s);
                 let t = self.real[s as usize].take().unwrap();
                 let r = real!({
-                    let st: SendTendril<F> = t.into_send();
+                    let st: SendTendril<F> = if s == 0 { t.into_send() } else { SendTendril::from(t) };
                     let back: Tendril<F, A> = Tendril::from(st);
                     back
                 });
